@@ -78,6 +78,7 @@ def tasks(tier, seed):
                 out.append({"fn": "accumulate", "kwargs": {"k": k, "weights": w, "which": f}, "label": f"accumulate/k={k},weights={w},{f}"})
                 if w == "vector" or (tier == "thorough"):
                     out.append({"fn": "accumulate", "kwargs": {"k": k, "weights": w, "which": f, "full": True}, "label": f"accumulate/k={k},weights={w},{f},full"})
+    out.append({"fn": "declared_at_run", "kwargs": {}, "label": "declared_at_run"})
     for isl, ind in ((1, 2), (2, 3)) if tier == "quick" else ((1, 2), (2, 3), (3, 3), (2, 5)):
         out.append({"fn": "champions", "kwargs": {"islands": isl, "individuals": ind}, "label": f"champions/islands={isl},individuals={ind}"})
     return out
@@ -339,6 +340,79 @@ def accumulate(k, weights, which, full=False):
     vx.prove(f"C11/accumulate/champion_resimulation/{lab}", vx.all_of(same))
 
 
+def _declared_run(t, o, w, seed):
+    """Build a Calibration with some ranges, re-declare ranges / weights / seed through the attributes, run it against recording
+    stand-ins for the fitting problem and the archipelago; returns the keyword arguments the fitting problem received."""
+    import os
+    import tempfile
+
+    import pyxel.calibration.calibration as cal
+    from pyxel.calibration import Algorithm, Calibration
+    from pyxel.exposure import Readout
+    from pyxel.observation import ParameterValues
+    from pyxel.pipelines import DetectionPipeline, FitnessFunction, ModelFunction, Processor
+
+    got = {}
+
+    class FakeProblem:
+        def __init__(self, **kw):
+            got.update(kw)
+            self.sim_output = kw.get("simulation_output")
+
+    class FakeArchi:
+        def __init__(self, **kw):
+            got["archi"] = kw
+
+        def run_evolve(self, **kw):
+            import xarray as xr
+
+            return xr.DataTree()
+
+    tmp = tempfile.mkdtemp(prefix="vx_c11_")
+    tfile = os.path.join(tmp, "t.npy")
+    np.save(tfile, np.zeros((4, 4)))
+    try:
+        with Patch() as p:
+            import pygmo as pg
+
+            p.attr(pg, "set_global_rng_seed", lambda seed: None, "no-op")
+            p.attr(cal, "ModelFittingDataTree", FakeProblem, "records its keyword arguments")
+            p.attr(cal, "ArchipelagoDataTree", FakeArchi, "recording stub")
+            c = Calibration(target_data_path=[tfile], fitness_function=FitnessFunction(func="pyxel.calibration.fitness.sum_of_abs_residuals"),
+                            algorithm=Algorithm(type="sade", generations=1, population_size=5), parameters=[ParameterValues(key=A_KEY, values="_", boundaries=(0.0, 1.0))],
+                            readout=Readout(times=[1.0]), pygmo_seed=7, pipeline_seed=1, target_fit_range=[0, 1, 0, 1], result_fit_range=[0, 1, 0, 1, 0, 1], weights=[1.0])
+            c.target_fit_range = list(t)
+            c.result_fit_range = list(o)
+            c.weights = list(w)
+            c.pipeline_seed = seed
+            det = make_ccd(4, 4)
+            pipe = DetectionPipeline(photon_collection=[ModelFunction(func="vxprobes.probe", name="probe", arguments={"pid": 0, "a": 0.0})])
+            c.run_calibration(processor=Processor(detector=det, pipeline=pipe), output_dir=None, with_inherited_coords=True, with_progress_bar=False)
+    finally:
+        os.remove(tfile)
+        os.rmdir(tmp)
+    tr, orr = got.get("target_fit_range"), got.get("out_fit_range")
+    return {"target": None if tr is None else [tr.row.start, tr.row.stop, tr.col.start, tr.col.stop],
+            "result": None if orr is None else [orr.time.start, orr.time.stop, orr.row.start, orr.row.stop, orr.col.start, orr.col.stop],
+            "weights": None if got.get("weights") is None else list(got["weights"]), "pipeline_seed": got.get("pipeline_seed")}
+
+
+def declared_at_run():
+    """A Calibration object whose fit ranges, weights and seed are (re-)declared through its attributes after construction: the fitting
+    problem built by run_calibration receives what the object declares when it is run."""
+    t = [vx.integer(f"target_{k}") for k in ("r0", "r1", "c0", "c1")]
+    o = [vx.integer(f"result_{k}") for k in ("t0", "t1", "r0", "r1", "c0", "c1")]
+    for lo, hi in ((t[0], t[1]), (t[2], t[3]), (o[0], o[1]), (o[2], o[3]), (o[4], o[5])):
+        vx.assume((lo >= 0) & (lo < hi) & (hi <= 4), "well-formed slices")
+    w = [vx.real("weight")]
+    seed = vx.integer("pipeline_seed")
+    got = _declared_run(t, o, w, seed)
+    vx.prove("C11/declared/target_fit_range_at_run", got["target"] == t, got=repr(got["target"])[:120])
+    vx.prove("C11/declared/result_fit_range_at_run", got["result"] == o, got=repr(got["result"])[:120])
+    vx.prove("C11/declared/weights_at_run", got["weights"] == w)
+    vx.prove("C11/declared/pipeline_seed_at_run", got["pipeline_seed"] is seed)
+
+
 class _Pop:
     def __init__(self, f, x):
         self.f, self.x = f, x
@@ -488,6 +562,11 @@ def replay(oid, kwargs, model, data):
         else:
             got, want = fm.reduced_chi_squared(s, t, w, 1), (((t - s) / w) ** 2).sum() / (n - 1)
         return (not close(float(got), float(want), 1e-9)), {"got": float(got), "want": float(want)}
+    if fn == "declared_at_run":
+        t, o, w, seed = [1, 3, 2, 4], [0, 1, 1, 3, 2, 4], [0.5], 12345
+        got = _declared_run(t, o, w, seed)
+        want = {"target": t, "result": o, "weights": w, "pipeline_seed": seed}
+        return got != want, {"declared_through_the_attributes": want, "handed_to_the_fitting_problem": got}
     if fn == "champions":
         islands, individuals = kwargs["islands"], kwargs["individuals"]
         g = lambda n, dflt: float(model.get(n, dflt))  # noqa: E731
